@@ -186,7 +186,7 @@ def d_multiplexer():
     sa = B.structure("sa", [B.value_param("a", B.dop("u8", 8))])
     sb = B.structure("sb", [B.value_param("b", B.dop("u16", 16))])
     m = B.mux("mx", B.dop("key", 8), [("c1", 1, 1, sa), ("c2", 2, 5, sb), ("c3", 9, 9, None)])
-    return B.request([B.coded_const("sid", 0x22, 0), B.value_param("m", m)]), \
+    return B.request([B.coded_const("sid", 0x22, 0), B.value_param("m", m), B.coded_const("chk", 0x77, 4)]), \
         [("m", ("oneof", [("tuple", "c1", ("dict", [("a", ("uint", 8))])),
                           ("tuple", "c2", ("dict", [("b", ("uint", 16))])),
                           ("tuple", "c3", ("dict", []))]))], None
@@ -351,6 +351,30 @@ def d_linear_signed_with_limit_zero():
     return B.request([B.coded_const("sid", 0x2E, 0), B.value_param("t", d, 1)]), [("t", ("dependent", 8))], None
 
 
+def d_struct_bytesize_params_out_of_order():
+    # a BYTE-SIZE structure whose parameters are not listed in the order of their byte positions
+    st = B.structure("st", [B.value_param("status", B.dop("u8s", 8), 2), B.value_param("ident", B.dop("u8i", 8), 0)],
+                     byte_size=4)
+    return B.request([B.coded_const("sid", 0x2E, 0), B.value_param("s", st), B.coded_const("end", 0x7F)]), \
+        [("s", ("dict", [("status", ("uint", 8)), ("ident", ("uint", 8))]))], None
+
+
+def d_static_field_of_strings_last():
+    # items that end with a HEX-FF terminated object, the field being the last parameter of the PDU
+    mm = B.dop("mmf", dct=B.minmax_type(DataType.A_BYTEFIELD, 0, 3, "HEX_FF"), dt=DataType.A_BYTEFIELD)
+    item = B.structure("item", [B.value_param("k", B.dop("u8", 8)), B.value_param("blob", mm)])
+    f = B.static_field("items", item, 2, 5)
+    return B.request([B.coded_const("sid", 0x2E, 0), B.value_param("items", f)]), \
+        [("items", ("list", ("dict", [("k", ("uint", 8)), ("blob", ("bytes", 0, 2))]), [2]))], None
+
+
+def d_dynamic_length_field_last():
+    item = B.structure("item", [B.value_param("k", B.dop("u8", 8))])
+    f = B.dynamic_length_field("items", item, B.dop("count", 8), offset=1)
+    return B.request([B.coded_const("sid", 0x12, 0), B.value_param("items", f)]), \
+        [("items", ("list", ("dict", [("k", ("uint", 8))]), [0, 1, 2]))], None
+
+
 def d_linear_limited():
     d = B.dop("lim", dct=B.std_type(8), compu_method=B.linear(0, 1, DataType.A_UINT32, DataType.A_UINT32, 0, 100))
     return B.request([B.coded_const("sid", 0x2E, 0), B.value_param("pct", d, 1)]), [("pct", ("dependent", 8))], None
@@ -399,6 +423,9 @@ DESCRIPTIONS = {
     "linear-with-default-value": d_linear_with_default_value,
     "linear-signed-limit-zero": d_linear_signed_with_limit_zero,
     "two-nibble-constants": d_two_nibble_constants,
+    "struct-bytesize-params-out-of-order": d_struct_bytesize_params_out_of_order,
+    "static-field-of-strings-last": d_static_field_of_strings_last,
+    "dynamic-length-field-last": d_dynamic_length_field_last,
 }
 
 # descriptions in which every bit of the PDU is determined by the decoded values: no reserved bits, no padding behind
@@ -410,7 +437,7 @@ BYTES_DETERMINED = {"sid+u8", "lowhigh-12+4", "default", "phys-const", "linear-l
                     "minmax-zero+u8", "minmax-end-of-pdu", "minmax-hexff+const", "struct-param", "end-of-pdu-field",
                     "leading-length-bytes", "leading-length-le16", "leading-length-last", "dynamic-length-field",
                     "dtc", "table-key+struct", "length-key-bytes",
-                    "dynamic-endmarker-field", "dynamic-endmarker-field-last"}
+                    "dynamic-endmarker-field", "dynamic-endmarker-field-last", "dynamic-length-field-last"}
 
 FUNCTIONS = [Request.encode, Request.decode, Response.encode, Response.decode,
              composite_codec_get_coded_const_prefix, composite_codec_get_static_bit_length,
@@ -443,7 +470,7 @@ def _value(name, kind):
         # of the compu method (factor * k + offset) are represented exactly, so these are the values to round-trip
         return kind[1] * H.int(f"val_{name}") + kind[2]
     if kind[0] == "bytes":
-        return H.bytes(f"val_{name}", 0, kind[2] + 2)
+        return H.bytes(f"val_{name}", 0 if kind[1] < 100 else kind[1], kind[2] + 2)
     if kind[0] == "str":
         return H.pick(f"val_{name}", kind[1])
     if kind[0] == "const":
@@ -496,6 +523,17 @@ def _wire(desc, values, pdu):
         return H.And(len(pdu) == 3, pdu[0] == 0x10, pdu[1] + 256 * pdu[2] == v["a"] + 4096 * v["b"])
     if desc == "reserved-bitpos-spill":
         return bytes([0x22, 0, 0, v["v"]])
+    if desc == "struct-bytesize-params-out-of-order":
+        return bytes([0x2E, v["s"]["ident"], 0, v["s"]["status"], 0, 0x7F])
+    if desc == "dynamic-length-field-last":
+        return bytes([0x12, len(v["items"])] + [it["k"] for it in v["items"]])
+    if desc == "multiplexer":
+        case, content = v["m"]
+        if case == "c1":
+            return bytes([0x22, 1, content["a"], 0, 0x77])
+        if case == "c2":
+            return bytes([0x22, 2, content["b"] // 256, content["b"] % 256, 0x77])
+        return bytes([0x22, 9, 0, 0, 0x77])
     if desc == "two-nibble-constants":
         return bytes([0x22, 0xAB, v["v"]])
     if desc == "reserved-middle":
@@ -541,7 +579,7 @@ def _fam(tier, seed):
 
 
 @harness(props=["C01", "C02", "C03", "C04", "C05", "C08"], strength="B", family=_fam,
-         bound="48 concrete request/response descriptions built from the real parameter / DOP / diag-coded-type classes "
+         bound="51 concrete request/response descriptions built from the real parameter / DOP / diag-coded-type classes "
          "(constants, defaults, reserved bits, low-high and non-aligned values, linear compu method, request echoes, "
          "MIN-MAX-LENGTH types with the three terminations, PHYS-CONST, SYSTEM, structures with and without BYTE-SIZE, end-of-PDU, static and dynamic-length fields, LEADING-LENGTH types, DTC DOP, multiplexer, table key/struct, PARAM-LENGTH-INFO types with their length key); per description every value is "
          "symbolic",
@@ -569,6 +607,10 @@ def roundtrip_through_the_real_stack(desc):
         if const_given_as != "omitted":
             values["sid"] = {"the constant": c, "another int": c + 1, "a float that truncates to it": c + 0.5,
                              "a text that parses to it": str(c)}[const_given_as]
+    if desc == "phys-const":
+        const_given_as = H.pick("pc_given_as", ["omitted", "the constant", "another int", "zero"])
+        if const_given_as != "omitted":
+            values["pc"] = {"the constant": 17, "another int": 18, "zero": 0}[const_given_as]
     required = [p.short_name for p in codec.required_parameters]
     free = [p.short_name for p in codec.free_parameters]
     try:
@@ -609,12 +651,12 @@ def roundtrip_through_the_real_stack(desc):
                         H.And(len(pdu) >= len(part), H.eq(bytes(pdu)[:len(part)], bytes(part))))
     static = codec.get_static_bit_length()
     if static is not None:
-        H.check("C08:static-bit-length-is-the-size-of-the-pdu", 8 * len(pdu) == static)
+        H.check("C08:static-bit-length-is-the-size-of-the-pdu", 8 * len(pdu) == static, independent=True)
     image = _wire(desc, values, pdu)
     if isinstance(image, bytes):
         image = H.eq(bytes(pdu), image)
     if image is not None:
-        H.check("C02,C08:pdu-is-the-wire-image-the-description-prescribes", image)
+        H.check("C02,C08:pdu-is-the-wire-image-the-description-prescribes", image, independent=True)
     try:
         back = codec.decode(bytes(pdu))
     except OdxError:
@@ -761,20 +803,36 @@ def _nrc_service():
     return svc
 
 
+def _two_length_service():
+    # two positive responses sharing their constant prefix: a long one (a byte field of at least four bytes) and a
+    # short one (a single status byte); a message is told apart by the decode error of the one that does not fit
+    svc = DiagService.__new__(DiagService)
+    svc.short_name = "svc"
+    svc._request = B.request([B.coded_const("sid", 0x22, 0), B.coded_const("did", 0x10, 1)])
+    mm = B.dop("mm4", dct=B.minmax_type(DataType.A_BYTEFIELD, 4, 6, "END_OF_PDU"), dt=DataType.A_BYTEFIELD)
+    svc._positive_responses = [
+        B.response([B.coded_const("sid", 0x62, 0), B.coded_const("did", 0x10, 1), B.value_param("blob", mm)], "pr_long"),
+        B.response([B.coded_const("sid", 0x62, 0), B.coded_const("did", 0x10, 1),
+                    B.value_param("status", B.dop("u8", 8))], "pr_short"),
+    ]
+    svc._negative_responses = []
+    return svc
+
+
 @harness(props=["C17", "C06"], strength="B",
          family=lambda t, s: [{"desc": k, "phase": ph} for k in DESCRIPTIONS for ph in ("encode", "decode")
                               if not (ph == "decode" and k in DECODE_SKIP)] +
-         [{"desc": "nrc-const-service", "phase": "decode"}],
-         bound="the 48 concrete descriptions plus one service with two NRC-CONST negative responses; values and "
+         [{"desc": "nrc-const-service", "phase": "decode"}, {"desc": "two-length-service", "phase": "decode"}],
+         bound="the 51 concrete descriptions plus one service with two NRC-CONST negative responses; values and "
          "messages symbolic",
          functions=FUNCTIONS + [DiagService.decode_message], covers=["strict-success"],
          assumes=["A-bitstruct", "A-lib"], limits={"max_paths": 40000, "task_timeout": 1500, "sym_for_unroll": 12}, use_contracts=["bcd"],
          crosscheck=False)
 def strict_success_implies_same_result_in_lenient_mode(desc, phase):
     """whenever encoding / decoding succeeds in strict mode, the same call in non-strict mode returns the same result"""
-    if desc == "nrc-const-service":
-        svc = _nrc_service()
-        message = H.bytes("message", 0, 4)
+    if desc in ("nrc-const-service", "two-length-service"):
+        svc = _nrc_service() if desc == "nrc-const-service" else _two_length_service()
+        message = H.bytes("message", 0, 4 if desc == "nrc-const-service" else 7)
         H.set_global(X, "strict_mode", True)
         try:
             m1 = svc.decode_message(message)
